@@ -219,13 +219,16 @@ func makeMethodArshaler(fncs *arshaler, t reflect.Type) *arshaler {
 			}
 			xe := export.Encoder(enc)
 			prevDepth, prevLength := xe.Tokens.DepthLength()
+			withinArshalCall := xe.Flags.Get(jsonflags.WithinArshalCall) // true if called from within another user-defined call
 			xe.Flags.Set(jsonflags.WithinArshalCall | 1)
 			marshaler, _ := reflect.TypeAssert[MarshalerTo](va.Addr())
 			prevFloor := xe.Tokens.Floor
 			xe.Tokens.Floor = len(xe.Tokens.Stack)         // the method may not close the enclosing object or array
 			defer func() { xe.Tokens.Floor = prevFloor }() // also when the user code panics
 			err := marshaler.MarshalJSONTo(enc)
-			xe.Flags.Set(jsonflags.WithinArshalCall | 0)
+			if !withinArshalCall {
+				xe.Flags.Set(jsonflags.WithinArshalCall | 0)
+			}
 			currDepth, currLength := xe.Tokens.DepthLength()
 			if (prevDepth != currDepth || prevLength+1 != currLength) && err == nil {
 				err = errNonSingularValue
@@ -321,13 +324,16 @@ func makeMethodArshaler(fncs *arshaler, t reflect.Type) *arshaler {
 			if prevDepth == 1 && xd.AtEOF() {
 				return io.EOF // check EOF early to avoid fn reporting an EOF
 			}
+			withinArshalCall := xd.Flags.Get(jsonflags.WithinArshalCall) // true if called from within another user-defined call
 			xd.Flags.Set(jsonflags.WithinArshalCall | 1)
 			unmarshaler, _ := reflect.TypeAssert[UnmarshalerFrom](va.Addr())
 			prevFloor := xd.Tokens.Floor
 			xd.Tokens.Floor = len(xd.Tokens.Stack)         // the method may not close the enclosing object or array
 			defer func() { xd.Tokens.Floor = prevFloor }() // also when the user code panics
 			err := unmarshaler.UnmarshalJSONFrom(dec)
-			xd.Flags.Set(jsonflags.WithinArshalCall | 0)
+			if !withinArshalCall {
+				xd.Flags.Set(jsonflags.WithinArshalCall | 0)
+			}
 			currDepth, currLength := xd.Tokens.DepthLength()
 			if (prevDepth != currDepth || prevLength+1 != currLength) && err == nil {
 				err = errNonSingularValue
